@@ -519,6 +519,9 @@ func (r *Renderer) value(o *out, lit string) {
 		if !r.NoLayout && r.Ch.Intn(12) == 11 {
 			// carriage returns inside a raw string literal are discarded (Go raw string semantics)
 			i := r.Ch.Intn(len(raw) + 1)
+			for i < len(raw) && !utf8.RuneStart(raw[i]) {
+				i++ // never split a multi-byte character
+			}
 			raw = raw[:i] + "\r" + raw[i:]
 			r.EscapedLits++
 		}
